@@ -75,14 +75,26 @@ func runDry(self, prop, repo, verif string, overlay map[string]string) (*Dry, er
 	cmd.Stderr = &out
 	cmd.Run()
 	lines := strings.Split(strings.TrimSpace(out.String()), "\n")
-	for i := len(lines) - 1; i >= 0; i-- {
-		if strings.HasPrefix(lines[i], "DRY ") {
+	var agg *Dry
+	for _, ln := range lines {
+		if strings.HasPrefix(ln, "DRY ") {
 			var d Dry
-			if err := json.Unmarshal([]byte(lines[i][4:]), &d); err != nil {
+			if err := json.Unmarshal([]byte(ln[4:]), &d); err != nil {
 				return nil, err
 			}
-			return &d, nil
+			// with -prop all there is one line per property: a variant is noticed if any rule set notices it
+			if agg == nil {
+				agg = &Dry{}
+			}
+			if d.Exit == 1 || (d.Exit == 2 && agg.Exit == 0) {
+				agg.Exit = d.Exit
+			}
+			agg.Violated = append(agg.Violated, d.Violated...)
+			agg.Broken = append(agg.Broken, d.Broken...)
 		}
+	}
+	if agg != nil {
+		return agg, nil
 	}
 	// the loader refused the variant (does not type-check)
 	return &Dry{Exit: 2, Broken: []string{"variant does not load"}}, nil
@@ -355,13 +367,17 @@ func Mutants(self, prop, repo, verif string, p *load.Program, base *report.Resul
 		}
 		all = thin
 	}
+	runMutants(self, prop, repo, verif, p, all, workers, res, prop)
+}
+
+func runMutants(self, prop, repo, verif string, p *load.Program, all []mutSite, workers int, res *Result, tag string) {
 	tmp, err := os.MkdirTemp("", "verif-mut-")
 	if err != nil {
 		res.Note += " (mutants skipped: " + err.Error() + ")"
 		return
 	}
 	defer os.RemoveAll(tmp)
-	os.RemoveAll(filepath.Join(verif, "replay", prop+"-mutants"))
+	os.RemoveAll(filepath.Join(verif, "replay", tag+"-mutants"))
 	res.ByKind = map[string][2]int{}
 	type job struct {
 		m       Mutant
@@ -411,7 +427,7 @@ func Mutants(self, prop, repo, verif string, p *load.Program, base *report.Resul
 				}
 			default:
 				m.Status = "silent"
-				keep := filepath.Join(verif, "replay", prop+"-mutants", filepath.Base(j.content))
+				keep := filepath.Join(verif, "replay", tag+"-mutants", filepath.Base(j.content))
 				if b, err := os.ReadFile(j.content); err == nil {
 					os.MkdirAll(filepath.Dir(keep), 0o755)
 					if os.WriteFile(keep, b, 0o644) == nil {
@@ -450,6 +466,21 @@ func Mutants(self, prop, repo, verif string, p *load.Program, base *report.Resul
 	// full list for the developer (replay/ is not committed)
 	if b, err := json.MarshalIndent(results, "", " "); err == nil {
 		os.MkdirAll(filepath.Join(verif, "replay"), 0o755)
-		os.WriteFile(filepath.Join(verif, "replay", prop+"-mutants.json"), b, 0o644)
+		os.WriteFile(filepath.Join(verif, "replay", tag+"-mutants.json"), b, 0o644)
 	}
+}
+
+// Sweep (development aid): statement-level variants of every function of one module package, judged by all rule sets.
+// The result lists every variant with its verdict; silent ones keep a copy of their source for tools/mutkill.py.
+func Sweep(self, repo, verif string, p *load.Program, pkg string, workers int) {
+	var all []mutSite
+	for _, fi := range p.FuncsIn(pkg) {
+		if fi.File == nil || fi.Body() == nil {
+			continue
+		}
+		all = append(all, sites(p, fi)...)
+	}
+	res := &Result{}
+	runMutants(self, "all", repo, verif, p, all, workers, res, "sweep-"+strings.ReplaceAll(pkg, "/", "_"))
+	fmt.Printf("sweep %s: %d variants, %d do not compile, %d noticed, %d silent\n", pkg, res.Generated, res.Invalid, res.Noticed, res.Silent)
 }
